@@ -371,11 +371,17 @@ def _infinite_iter(it):
 
 def _classify_while(lp, f):
     body = lp.body
+    # local names bound to the pop method of a list (``pop = stack.pop``): calling them pops that list
+    pop_alias = {a_.targets[0].id: src(a_.value.value) for a_ in ast.walk(f.node)
+                 if isinstance(a_, ast.Assign) and len(a_.targets) == 1 and isinstance(a_.targets[0], ast.Name)
+                 and isinstance(a_.value, ast.Attribute) and a_.value.attr == 'pop'}
     # stack-pop machine: (optional emptiness exit) then unconditional ``a, b, c = S.pop()``
     for st in body[:3]:
-        if isinstance(st, ast.Assign) and isinstance(st.value, ast.Call) and isinstance(st.value.func, ast.Attribute) \
-                and st.value.func.attr == 'pop' and not st.value.args:
-            stack = src(st.value.func.value)
+        is_pop = isinstance(st, ast.Assign) and isinstance(st.value, ast.Call) and not st.value.args and (
+            (isinstance(st.value.func, ast.Attribute) and st.value.func.attr == 'pop') or
+            (isinstance(st.value.func, ast.Name) and st.value.func.id in pop_alias))
+        if is_pop:
+            stack = src(st.value.func.value) if isinstance(st.value.func, ast.Attribute) else pop_alias[st.value.func.id]
             t = src(lp.test)
             exits = t == stack or any(isinstance(s, ast.If) and src(s.test) in ('not ' + stack, 'len(%s) == 0' % stack)
                                       and s.body and isinstance(s.body[0], (ast.Return, ast.Break)) for s in body[:2])
